@@ -82,7 +82,7 @@ theorem anyIdx_false {p : Nat → Bool} {lo cnt : Nat} (h : anyIdx p lo cnt = fa
 
 /-- the gate alphabet of the synthesis and of its inverse. -/
 def Gate.isAG : Gate → Bool
-  | .H _ | .S _ | .SDG _ | .CNOT _ _ | .SWAP _ _ | .Z _ | .X _ => true
+  | .H _ | .S _ | .SDG _ | .CNOT _ _ | .SWAP _ _ | .Z _ | .X _ | .Y _ => true
   | _ => false
 
 structure Good (n : Nat) (T0 : Tableau) (s : Synth) : Prop where
@@ -849,6 +849,9 @@ theorem dagger_act (n : Nat) (g : Gate) (ha : g.isAG = true) (hg : g.ok n) (w : 
   case Z q =>
     refine Row.ext' (fun k => rfl) (fun k => rfl) ?_
     simp only [opZ]; cases w.x q <;> cases w.z q <;> cases w.r <;> rfl
+  case Y q =>
+    refine Row.ext' (fun k => rfl) (fun k => rfl) ?_
+    simp only [opY]; cases w.x q <;> cases w.z q <;> cases w.r <;> rfl
   case S q =>
     refine Row.ext' (fun k => rfl) (fun k => ?_) ?_
     · simp only [opSDG, opS, upd, if_true]; by_cases e : k = q
@@ -942,6 +945,9 @@ theorem rowEq_act (n : Nat) (g : Gate) (ha : g.isAG = true) (hg : g.ok n) {a b :
   case Z q =>
     have hq := hb q hg
     exact ⟨fun k hk => hb k hk, by simp [opZ, hr, hq.1, hq.2]⟩
+  case Y q =>
+    have hq := hb q hg
+    exact ⟨fun k hk => hb k hk, by simp [opY, hr, hq.1, hq.2]⟩
   case S q =>
     have hq := hb q hg
     refine ⟨fun k hk => ?_, ?_⟩
@@ -1062,6 +1068,20 @@ theorem toCircuit_one (T : Tableau) (hv : Valid 1 T) :
     have : k = 0 := by omega
     subst this
     exact ⟨S.2.2.2.1, S.2.2.2.2.1⟩
+
+theorem onQubit_isAG {q : Nat} {g : Gate} (h : OnQubit q g) : g.isAG = true := by
+  rcases h with rfl | rfl | rfl | rfl | rfl | rfl <;> rfl
+
+/-- the returned circuit is written in the invertible alphabet H S SDG CNOT SWAP X Y Z. -/
+theorem toCircuit_isAG (n : Nat) (T : Tableau) (hv : Valid n T) :
+    ∀ g ∈ toCircuitAG04 n T, g.isAG = true := by
+  unfold toCircuitAG04
+  by_cases hn : n = 1
+  · rw [if_pos hn]
+    intro g hg
+    exact onQubit_isAG (mem_singleQubitQ 0 _ _ _ _ _ _ g hg)
+  · rw [if_neg hn]
+    exact invert_isAG _ (ag04Forward_spec T hv).1.ag
 
 theorem toCircuit_spec (n : Nat) (T : Tableau) (hv : Valid n T) :
     (∀ g ∈ toCircuitAG04 n T, g.ok n) ∧ TabEq n (runGates (toCircuitAG04 n T) (zeroState n)) T := by
